@@ -678,6 +678,7 @@ func (f *FuncCtx) havocHeap(st *State, h string) {
 		st.assume("(forall ((q!p Int)) (! (=> (select " + old + " q!p) (select " + c + " q!p)) :pattern ((select " + c + " q!p))))")
 		return
 	}
+	delete(st.pending, h)
 	st.heap[h] = f.fresh("hv_"+h, srt)
 }
 
